@@ -4,6 +4,7 @@ import (
 	gocontext "context"
 	"errors"
 	"io"
+	"io/fs"
 	"net/http"
 	"net/url"
 	"sort"
@@ -147,14 +148,29 @@ func DescribePanic(p interface{}) string {
 		return "error-with-panicking-Error()"
 	case errList:
 		return "slice-typed-error:" + v[0]
-	case error:
+	case *fs.PathError:
+		if v == nil {
+			return "typed-nil-*fs.PathError"
+		}
 		return "error:" + v.Error()
+	case error:
+		return "error:" + safeError(v)
 	case panicStruct:
 		return "struct:" + v.Tok
 	case int:
 		return "int:" + itoa(v)
 	}
 	return "other"
+}
+
+// safeError calls Error() and survives its panic.
+func safeError(e error) (s string) {
+	defer func() {
+		if recover() != nil {
+			s = "<Error() panicked>"
+		}
+	}()
+	return e.Error()
 }
 
 // Outcome is the observable result of a request, used for the comparison with
